@@ -171,6 +171,39 @@ Theorem C06_no_delivery_after_remove_concurrent :
 Proof. exact no_delivery_after_remove_concurrent. Qed.
 Print Assumptions C06_no_delivery_after_remove_concurrent.
 
+(** Registration is atomic w.r.t. other subscribers' calls: once AddQuery(q, c)
+    has RETURNED, and until a removal closure of that pair is called, every
+    Update / UpdateOnce of a compatible path that starts is going to call c
+    (unless its [updated] set already holds c) -- whatever other subscribers
+    register or remove on shared prefixes meanwhile, in every interleaving. *)
+Theorem C06_registered_until_removed_concurrent :
+  forall t0 thr s a q c u p upd s',
+    wf t0 -> forallb thread_idle thr = true ->
+    reachable_from (cstep true) (cinit t0 thr) s ->
+    nth_error (cs_thr s) a = Some (TAdd q c WDone) ->
+    rem_idle q c (cs_thr s) ->
+    compat q p = true ->
+    nth_error (cs_thr s) u = Some (TUpd p upd UIdle) ->
+    cstep true s u = Some s' ->
+    exists l, nth_error (cs_thr s') u = Some (TUpd p upd (UHold l)) /\
+              (In c l \/ exists set, upd = Some set /\ In c set).
+Proof. exact registered_until_removed_concurrent. Qed.
+Print Assumptions C06_registered_until_removed_concurrent.
+
+(** The variant of AddQuery that finds the existing part of the query under
+    the read lock and attaches under the write lock without looking again
+    loses the registration when another subscriber's removal prunes the node
+    found in between; the code as it is registers the client. *)
+Theorem C06_split_add_refuted :
+  exists t q c qy cy,
+    wf t /\
+    let j := prefix_len t q in
+    let t1 := remove_root qy cy t in
+    (forall q', ~ In c (clients_at (split_add_attach j q c t1) q')) /\
+    In c (clients_at (add_query q c t1) q).
+Proof. exact split_add_refuted. Qed.
+Print Assumptions C06_split_add_refuted.
+
 (** The variant that collects the clients under the read lock and calls them
     after RUnlock violates it: the removal closure returns and the client is
     called afterwards although it is registered nowhere. *)
